@@ -91,18 +91,21 @@ def check(case, ctx):
             sums[r.head] = sums.get(r.head, 0.0) + r.w
         for X in G.N:
             if Zs[X] > 1e-9:
+                # the library's totals stop when an update is below 1e-12 (absolute), so a head
+                # with a small total Z carries a relative error of about 1e-12 / Z
                 ctx.check(
                     "ln|headsum",
-                    abs(sums.get(X, 0.0) - 1) <= 1e-8,
+                    abs(sums.get(X, 0.0) - 1) <= 1e-8 + 1e-10 / Zs[X],
                     lambda: f"locally_normalize: rules of {X} (Z={Zs[X]}) sum to {sums.get(X, 0.0)}",
                 )
             else:
                 ctx.check("ln|zerohead", X not in sums, lambda: f"locally_normalize: head {X} with Z=0 kept rules")
         GL = RG.from_lib(M, ln)
         ZL = total(GL)[GL.S]
-        ctx.check("ln|total", abs(ZL - 1) <= 1e-8, lambda: f"locally_normalize: total weight {ZL}")
+        ctx.check("ln|total", abs(ZL - 1) <= 1e-8 + 1e-10 / min(v for v in Zs.values() if v > 1e-9), lambda: f"locally_normalize: total weight {ZL}")
         ts = ctx.call("ln.treesum", ln.treesum)
-        ctx.eq("ln.treesum", M, ts, 1.0)
+        if not isinstance(ts, LibRaised):
+            ctx.check("ln.treesum", abs(ts - 1) <= 1e-8 + 1e-10 / min(v for v in Zs.values() if v > 1e-9), lambda: f"locally_normalize(cfg).treesum() = {ts}")
         refL = Inside(GL)
         for xs in strings:
             ctx.evals += 1
